@@ -128,7 +128,7 @@ impl Prop for C14 {
             .boxed()
     }
     fn random_cases(&self, tier: Tier) -> u32 {
-        tier.pick(40_000, 1_000_000)
+        tier.pick(300_000, 3_000_000)
     }
     fn check(&self, case: &RtCase) -> Outcome {
         let mut out = Outcome::new();
